@@ -7,93 +7,92 @@ namespace Rbgp.Enc
 
 /-! ### the chunk loop -/
 
-/-- The chunks a frame function `F` / count function `N` produce: one frame per iteration over the
-    remaining entries, as long as progress is made. -/
-def chunksOf (F : List Entry → Bytes) (N : List Entry → Nat) (es : List Entry) : List (Bytes × Nat) :=
+/-- One value `G rem` per iteration of the chunk loop over the remaining entries `rem`; the loop stops after
+    an iteration that takes no entry (`N rem = 0`). -/
+def chunksG {α : Type} (G : List Entry → α) (N : List Entry → Nat) (es : List Entry) : List α :=
   match es with
   | [] => []
   | e :: rest =>
-      if _h : N (e :: rest) = 0 then [(F (e :: rest), 0)]
-      else (F (e :: rest), N (e :: rest)) :: chunksOf F N ((e :: rest).drop (N (e :: rest)))
+      if _h : N (e :: rest) = 0 then [G (e :: rest)]
+      else G (e :: rest) :: chunksG G N ((e :: rest).drop (N (e :: rest)))
 termination_by es.length
 decreasing_by simp [List.length_drop]; omega
 
-theorem encodeLoop_eq (p : Profile) (c : Codec) (m : Msg) (F : List Entry → Bytes) (N : List Entry → Nat)
-    (hdo : ∀ es, es ≠ [] → doEncode p c m es = .ok (F es, N es)) (es : List Entry) :
-    encodeLoop p c m es = .ok (chunksOf F N es) := by
+/-- induction principle following the loop -/
+theorem chunksG_induction (N : List Entry → Nat) (motive : List Entry → Prop)
+    (hnil : motive [])
+    (hstop : ∀ e rest, N (e :: rest) = 0 → motive (e :: rest))
+    (hstep : ∀ e rest, N (e :: rest) ≠ 0 → motive ((e :: rest).drop (N (e :: rest))) → motive (e :: rest))
+    (es : List Entry) : motive es := by
   induction hl : es.length using Nat.strongRecOn generalizing es with
   | _ n ih =>
       cases es with
-      | nil => rw [encodeLoop, chunksOf]
+      | nil => exact hnil
       | cons e rest =>
-          rw [encodeLoop, chunksOf, hdo (e :: rest) (by simp)]
           by_cases h0 : N (e :: rest) = 0
-          · simp [h0]
-          · simp only [h0, dite_false]
+          · exact hstop e rest h0
+          · apply hstep e rest h0
             have hlt : ((e :: rest).drop (N (e :: rest))).length < n := by
               rw [← hl]; simp [List.length_drop]; omega
-            rw [ih _ hlt _ rfl]
+            exact ih _ hlt _ rfl
 
-/-- entry slices of the chunks -/
-def chunkSlices (N : List Entry → Nat) (es : List Entry) : List (List Entry) :=
-  match es with
-  | [] => []
-  | e :: rest =>
-      if _h : N (e :: rest) = 0 then [[]]
-      else (e :: rest).take (N (e :: rest)) :: chunkSlices N ((e :: rest).drop (N (e :: rest)))
-termination_by es.length
-decreasing_by simp [List.length_drop]; omega
+theorem chunksG_map {α β : Type} (G : List Entry → α) (h : α → β) (N : List Entry → Nat) (es : List Entry) :
+    (chunksG G N es).map h = chunksG (fun r => h (G r)) N es := by
+  induction es using chunksG_induction N with
+  | hnil => rw [chunksG, chunksG]; rfl
+  | hstop e rest h0 => rw [chunksG, chunksG]; simp [h0]
+  | hstep e rest h0 ih => rw [chunksG, chunksG]; simp only [h0, dite_false, List.map_cons, ih]
+
+theorem encodeLoop_eq (p : Profile) (c : Codec) (m : Msg) (F : List Entry → Bytes) (N : List Entry → Nat)
+    (S : List Entry → Prop) (hdrop : ∀ r n, S r → S (r.drop n))
+    (hdo : ∀ r, r ≠ [] → S r → doEncode p c m r = .ok (F r, N r)) (es : List Entry) (hS : S es) :
+    encodeLoop p c m es = .ok (chunksG (fun r => (F r, N r)) N es) := by
+  induction es using chunksG_induction N with
+  | hnil => rw [encodeLoop, chunksG]
+  | hstop e rest h0 =>
+      rw [encodeLoop, chunksG, hdo (e :: rest) (by simp) hS]
+      simp [h0]
+  | hstep e rest h0 ih =>
+      rw [encodeLoop, chunksG, hdo (e :: rest) (by simp) hS]
+      simp only [h0, dite_false]
+      rw [ih (hdrop _ _ hS)]
 
 /-- **No drop, no duplicate, no reordering**: with progress in every iteration the per-frame entry slices
     concatenate to the input list. -/
-theorem chunkSlices_flatten (N : List Entry → Nat) (hpos : ∀ es, es ≠ [] → N es ≠ 0) (es : List Entry) :
-    (chunkSlices N es).flatten = es := by
-  induction hl : es.length using Nat.strongRecOn generalizing es with
-  | _ n ih =>
-      cases es with
-      | nil => rw [chunkSlices]; rfl
-      | cons e rest =>
-          rw [chunkSlices]
-          have h0 := hpos (e :: rest) (by simp)
-          simp only [h0, dite_false, List.flatten_cons]
-          have hlt : ((e :: rest).drop (N (e :: rest))).length < n := by
-            rw [← hl]; simp [List.length_drop]; omega
-          rw [ih _ hlt _ rfl, List.take_append_drop]
+theorem chunkSlices_flatten (N : List Entry → Nat) (hpos : ∀ r, r ≠ [] → N r ≠ 0) (es : List Entry) :
+    (chunksG (fun r => r.take (N r)) N es).flatten = es := by
+  induction es using chunksG_induction N with
+  | hnil => rw [chunksG]; rfl
+  | hstop e rest h0 => exact absurd h0 (hpos _ (by simp))
+  | hstep e rest h0 ih =>
+      rw [chunksG]
+      simp only [h0, dite_false, List.flatten_cons, ih, List.take_append_drop]
 
-theorem chunksOf_counts (F : List Entry → Bytes) (N : List Entry → Nat) (es : List Entry) :
-    slices es ((chunksOf F N es).map (·.2)) = chunkSlices N es := by
-  induction hl : es.length using Nat.strongRecOn generalizing es with
-  | _ n ih =>
-      cases es with
-      | nil => rw [chunksOf, chunkSlices]; rfl
-      | cons e rest =>
-          rw [chunksOf, chunkSlices]
-          by_cases h0 : N (e :: rest) = 0
-          · simp [h0, slices]
-          · simp only [h0, dite_false, List.map_cons, slices]
-            have hlt : ((e :: rest).drop (N (e :: rest))).length < n := by
-              rw [← hl]; simp [List.length_drop]; omega
-            rw [ih _ hlt _ rfl]
+theorem chunksG_counts (N : List Entry → Nat) (es : List Entry) :
+    slices es (chunksG N N es) = chunksG (fun r => r.take (N r)) N es := by
+  induction es using chunksG_induction N with
+  | hnil => rw [chunksG, chunksG]; rfl
+  | hstop e rest h0 => rw [chunksG, chunksG]; simp [h0, slices]
+  | hstep e rest h0 ih =>
+      rw [chunksG, chunksG]
+      simp only [h0, dite_false, slices, ih]
 
-/-- every chunk is `(F rem, N rem)` for a non-empty suffix `rem` of the list -/
-theorem chunksOf_mem (F : List Entry → Bytes) (N : List Entry → Nat) (es : List Entry) (x : Bytes × Nat)
-    (hx : x ∈ chunksOf F N es) : ∃ rem, rem ≠ [] ∧ (∃ k, rem = es.drop k) ∧ x = (F rem, N rem) := by
-  induction hl : es.length using Nat.strongRecOn generalizing es with
-  | _ n ih =>
-      cases es with
-      | nil => rw [chunksOf] at hx; cases hx
-      | cons e rest =>
-          rw [chunksOf] at hx
-          by_cases h0 : N (e :: rest) = 0
-          · simp only [h0, dite_true, List.mem_singleton] at hx
-            exact ⟨e :: rest, by simp, ⟨0, rfl⟩, by rw [hx, h0]⟩
-          · simp only [h0, dite_false, List.mem_cons] at hx
-            rcases hx with hx | hx
-            · exact ⟨e :: rest, by simp, ⟨0, rfl⟩, hx⟩
-            · have hlt : ((e :: rest).drop (N (e :: rest))).length < n := by
-                rw [← hl]; simp [List.length_drop]; omega
-              obtain ⟨rem, hne, ⟨k, hk⟩, hxe⟩ := ih _ hlt _ hx rfl
-              exact ⟨rem, hne, ⟨N (e :: rest) + k, by rw [hk, List.drop_drop]⟩, hxe⟩
+/-- a property of every `G rem` follows from the property for all non-empty reachable `rem` -/
+theorem chunksG_forall {α : Type} (G : List Entry → α) (N : List Entry → Nat) (S : List Entry → Prop)
+    (hdrop : ∀ r n, S r → S (r.drop n)) (Pr : α → Prop)
+    (h : ∀ r, r ≠ [] → S r → Pr (G r)) (es : List Entry) (hS : S es) :
+    ∀ x ∈ chunksG G N es, Pr x := by
+  induction es using chunksG_induction N with
+  | hnil => rw [chunksG]; intro x hx; cases hx
+  | hstop e rest h0 =>
+      rw [chunksG]; simp only [h0, dite_true, List.mem_singleton]
+      intro x hx; rw [hx]; exact h _ (by simp) hS
+  | hstep e rest h0 ih =>
+      rw [chunksG]; simp only [h0, dite_false, List.mem_cons]
+      intro x hx
+      rcases hx with hx | hx
+      · rw [hx]; exact h _ (by simp) hS
+      · exact ih (hdrop _ _ hS) x hx
 
 /-! ### frames on the wire -/
 
